@@ -29,13 +29,17 @@ RECORD = ("uf('SplitResult', 'Obj', '', uf('unsplit_netloc', 'Str', %s.username,
 ISREC = "isinstance_(%s, 'SplitResult')" % N
 NH = "uf('normalize_hostname', 'Str', old(hostname))"
 
-GU = "uf('urlsplit', 'Obj', uf('ensure_protocol', 'Str', ite(infer_redirection, uf('infer_redirection', 'Str', old(url)), old(url)).strip()))"
+LU = "old(url).lower()"
+GU = ("uf('urlsplit', 'Obj', uf('ensure_protocol', 'Str', uf('re_sub', 'Str', CONTROL_CHARS_RE, '',"
+      " ite(infer_redirection, uf('infer_redirection', 'Str', %s), %s)).strip()))" % (LU, LU))
 
 MODULE = {
     "file": "ural/fingerprint_url.py", "auto": True,
     "consts": {"lang_query_item_filter": ("Opaque", "Obj"), "qsl_sort_key": ("Opaque", "Obj"), "SplitResult": ("Opaque", "Obj")},
     "obj_attrs": {"username": "Opt[Str]", "password": "Opt[Str]", "hostname": "Opt[Str]", "port": "Opt[Int]"},
     "library": {
+        "Obj.sub": {"params": ["repl", "string"], "receiver": "pattern", "types": {"pattern": "Obj", "repl": "Str", "string": "Str"},
+                    "returns": "Str", "ensures": ["result == uf('re_sub', 'Str', pattern, repl, string)"]},
         "normalize_url": {"params": ["url", "unsplit", "query_item_filter", "platform_aware"],
                           "types": {"url": "Str", "unsplit": "Bool", "query_item_filter": "Obj", "platform_aware": "Bool"}, "returns": "Obj",
                           "result_meta": {"unpack": ["Str", "Str", "Str", "Str", "Str"]},
@@ -70,8 +74,9 @@ MODULE = {
             # the str entry point (a SplitResult argument skips the parsing step: not covered here)
             "types": {"url": "Str", "infer_redirection": "Bool", "strip_suffix": "Bool", "splitted": "Obj", "g_ok": "Bool"},
             "returns": "Opt[Str]", "isinstance": {"url,SplitResult": False},
+            # the url is lower-cased first (like fingerprint_url), cleaned like normalize_url (control characters, then stripping)
             "ghost_entry": ["g_ok = False"],
-            "ghost_after": {"splitted = urlsplit(ensure_protocol(url.strip()))": ["g_ok = True"]},
+            "ghost_after": {"splitted = urlsplit(ensure_protocol(url))": ["g_ok = True"]},
             "ensures": [
                 # C07: the host the parser sees after redirection inference, stripping and ensuring a scheme, through fingerprint_hostname; None when
                 # the URL does not parse or has no host; never raises
